@@ -2,6 +2,7 @@
 CONSTANTS
   Snaps <- MCSnaps3
   MaxChanges = 3
+  ACfgs <- MCNoACfgs
   WithPartial = FALSE
 INIT Init
 NEXT Next
